@@ -2,7 +2,7 @@ META = dict(
     level='model_checking',
     rule=('stateless exploration of thread schedules on the real code under a cooperative scheduler over real OS threads: 2 and 3 threads, each owning one sandbox object '
           'of the same backend type and running the script create / malloc / example-based pointer store+load / register callback / invoke a guest function that yields '
-          'and calls the callback (which checks its sandbox reference and performs a nested invocation) / unregister / free / destroy / create again / ... / destroy; '
+          'and calls the callback (which checks its sandbox reference and performs a nested invocation) / unregister / take two app pointers, record the tokens and resolve them / free / destroy / create again / ... / destroy; '
           'scheduling points at every acquire and release of RLBox\'s shared locks (own lock type through RLBOX_USE_CUSTOM_SHARED_LOCK; a second build keeps the library\'s DEFAULT lock macros and interposes the pthread rwlock operations they end in) and at yields inside mbox backend '
           'entry points, guest functions and callbacks; all schedules with at most 2 preemptions for two threads and 1 for three threads (thorough: 3 and 2) are enumerated depth-first (choice 0 = keep '
           'running); the three-thread space is explored a second time with every sandbox created before the threads start (list order 0,1,2), so that use of the last-created sandbox races with the destruction of an earlier one within the same bound. Oracle per schedule: each thread\'s observation sequence equals its solo run; no deadlock; no vector-clock race on the RLBOX_VERIF_SHARED accesses '
